@@ -325,13 +325,18 @@ def definition(draw, o=None, root_kind="struct"):
 
 
 @st.composite
-def config(draw, ptrs=("uint8", "uint16", "uint32", "uint64"), compiled=None, align=None):
-    return {
+def config(draw, ptrs=("uint8", "uint16", "uint32", "uint64"), compiled=None, align=None, flip=False):
+    cfg = {
         "endian": draw(st.sampled_from(["<", ">", "<", ">", "!"])),
         "align": draw(st.booleans()) if align is None else align,
         "ptr": draw(st.sampled_from(list(ptrs))),
         "compiled": draw(st.booleans()) if compiled is None else compiled,
     }
+    if flip and draw(st.integers(0, 3)) == 0:
+        # the definitions are loaded under ANOTHER byte order, which is switched to cfg["endian"] before anything is parsed
+        # or dumped (byte order is configuration read at parse/dump time, also by already compiled readers: C05)
+        cfg["load_endian"] = draw(st.sampled_from([e for e in "<>" if e != {"!": ">"}.get(cfg["endian"], cfg["endian"])] + (["!"] if cfg["endian"] == "<" else [])))
+    return cfg
 
 
 # ---------------------------------------------------------------- values
